@@ -438,3 +438,44 @@ proof fn lemma_silent_compose(c0: Config, c: Config, inner: Config, inner2: Conf
     lemma_reach_trans(c0, c, lift(inner2, suffix), n, n1);
     assert(witnn(n + n1));
 }
+
+// ---- what an error item leaves behind (C10: the caller may go on; C01: execution resumes behind the failing statement) ----
+
+/// c2 is cm with the statement at the head of its first block dropped (the statement whose evaluation failed), or cm itself
+/// (a `while` condition that failed is tried again)
+spec fn drop_head(cm: Config, c2: Config) -> bool {
+    c2.ctx == cm.ctx && (c2.k == cm.k
+        || (cm.k.len() > 0 && (cm.k[0] matches Frame::Block(ss) && ss.len() > 0 && c2.k == cm.k.update(0, Frame::Block(ss.skip(1))))))
+}
+/// silent steps lead from c to a configuration whose head statement is then dropped, leaving c2
+spec fn fails(c: Config, c2: Config) -> bool {
+    exists|n: nat, cm: Config| #[trigger] witn(n, cm) && reach(c, cm, n) && drop_head(cm, c2)
+}
+proof fn lemma_fails_intro(c0: Config, c: Config, c2: Config)
+    requires silent_to(c0, c), drop_head(c, c2)
+    ensures fails(c0, c2)
+{
+    let n = choose|n: nat| #[trigger] witnn(n) && reach(c0, c, n);
+    assert(witn(n, c));
+}
+proof fn lemma_drop_head_lift(cm: Config, c2: Config, suffix: Seq<Frame>)
+    requires drop_head(cm, c2)
+    ensures drop_head(lift(cm, suffix), lift(c2, suffix))
+{
+    if c2.k != cm.k {
+        let ss = cm.k[0]->Block_0;
+        assert((cm.k + suffix)[0] == cm.k[0]);
+        assert(c2.k + suffix =~= (cm.k + suffix).update(0, Frame::Block(ss.skip(1))));
+    }
+}
+proof fn lemma_fails_compose(c0: Config, c: Config, inner: Config, inner2: Config, suffix: Seq<Frame>)
+    requires silent_to(c0, c), c == lift(inner, suffix), fails(inner, inner2)
+    ensures fails(c0, lift(inner2, suffix))
+{
+    let n = choose|n: nat| #[trigger] witnn(n) && reach(c0, c, n);
+    let (n1, cm) = choose|n1: nat, cm: Config| #[trigger] witn(n1, cm) && reach(inner, cm, n1) && drop_head(cm, inner2);
+    lemma_reach_lift(inner, cm, n1, suffix);
+    lemma_drop_head_lift(cm, inner2, suffix);
+    lemma_reach_trans(c0, c, lift(cm, suffix), n, n1);
+    assert(witn(n + n1, lift(cm, suffix)));
+}
